@@ -2,7 +2,6 @@ package s3afero
 
 import (
 	"fmt"
-	"os"
 	"time"
 
 	"github.com/spf13/afero"
@@ -21,11 +20,14 @@ func modTimeFsCalc(fs afero.Fs) modTimeCalc {
 // modTimeResolution returns a best-effort guess at the resolution of the file
 // modification time for a given afero.Fs.
 func modTimeResolution(fs afero.Fs) (dur time.Duration, rerr error) {
-	name := ".modtime-resolution"
-	tf, err := fs.OpenFile(name, os.O_CREATE|os.O_TRUNC|os.O_WRONLY, 0666)
+	// The probe file gets a name of its own (created exclusively): in the
+	// single-bucket backend fs is the bucket's directory, and a fixed name would
+	// truncate and remove an object that happens to have that key.
+	tf, err := afero.TempFile(fs, ".", ".modtime-resolution-")
 	if err != nil {
 		return 0, err
 	}
+	name := tf.Name()
 	defer fs.Remove(name)
 
 	if err := tf.Close(); err != nil {
